@@ -575,9 +575,49 @@ class Desugar(ast.NodeTransformer):
                 return ast.copy_location(copy.deepcopy(v), node)
         return node
 
+    # ------------------------------------------------------------------ tuples of classes kept in a module-level name
+    def _class_tuple(self, e: ast.expr) -> Optional[ast.Tuple]:
+        """NAME bound once at module level to a tuple of names / attribute chains (exception or message classes), or a tuple
+        display that splices such names in with *NAME: the flat tuple"""
+        if isinstance(e, ast.Name) and e.id in self.module_tables and isinstance(self.module_tables[e.id], ast.Tuple) and \
+                all(isinstance(x, (ast.Name, ast.Attribute)) for x in self.module_tables[e.id].elts) and not (self.func_stack and self._is_local(e.id)):
+            return copy.deepcopy(self.module_tables[e.id])
+        if isinstance(e, ast.Tuple) and any(isinstance(x, ast.Starred) for x in e.elts):
+            out: List[ast.expr] = []
+            for x in e.elts:
+                if isinstance(x, ast.Starred):
+                    inner = self._class_tuple(x.value)
+                    if inner is None:
+                        return None
+                    out.extend(inner.elts)
+                else:
+                    out.append(x)
+            return ast.copy_location(ast.Tuple(elts=out, ctx=ast.Load()), e)
+        return None
+
+    def _is_local(self, name: str) -> bool:
+        fn = self.func_stack[-1]
+        params = {a.arg for a in fn.args.posonlyargs + fn.args.args + fn.args.kwonlyargs} if hasattr(fn, "args") else set()
+        return name in params or any(isinstance(x, ast.Name) and x.id == name and isinstance(x.ctx, (ast.Store, ast.Del)) for x in ast.walk(fn))
+
+    def visit_ExceptHandler(self, node: ast.ExceptHandler):
+        if node.type is not None:
+            t = self._class_tuple(node.type)
+            if t is not None:
+                node.type = ast.copy_location(t, node.type)
+                ast.fix_missing_locations(node.type)
+                self.count["class_tuple"] = self.count.get("class_tuple", 0) + 1
+        return self.generic_visit(node)
+
     # ------------------------------------------------------------------ getattr
     def visit_Call(self, node: ast.Call):
         node = self.generic_visit(node)
+        if isinstance(node.func, ast.Name) and node.func.id in ("isinstance", "issubclass") and len(node.args) == 2 and not node.keywords:
+            t = self._class_tuple(node.args[1])
+            if t is not None:
+                node.args[1] = ast.copy_location(t, node.args[1])
+                ast.fix_missing_locations(node.args[1])
+                self.count["class_tuple"] = self.count.get("class_tuple", 0) + 1
         if isinstance(node.func, ast.Name) and node.func.id == "getattr" and len(node.args) == 2 and not node.keywords and \
                 isinstance(node.args[1], ast.Constant) and isinstance(node.args[1].value, str) and node.args[1].value.isidentifier():
             self.count["getattr"] += 1
